@@ -75,6 +75,14 @@ class Region(object):
         return v
 
 
+class Agg(object):
+    """value of a first-class aggregate: its memory image, cell by cell"""
+    __slots__ = ('cells',)
+
+    def __init__(self, cells):
+        self.cells = list(cells)
+
+
 class Undecided(Exception):
     pass
 
@@ -330,10 +338,15 @@ class Machine(object):
         return r
 
     def note_access(self, r, off, n, kind):
+        if getattr(r, 'dead', False):
+            self.w.notes.append(('use-after-scope', r.name, kind, self.loc()))
         if r.size is not None and (off < 0 or off + n > r.size):
             self.w.oob.append((r.name, off, n, kind, self.loc()))
         elif off < 0:
             self.w.oob.append((r.name, off, n, kind, self.loc()))
+        if len(self.w.oob) > getattr(self, 'oob_limit', 64):
+            # a run that keeps leaving its objects is decided already; do not follow it to the end of the step budget
+            self.undecided('stopped after %d accesses outside the declared extents' % len(self.w.oob))
         s = r.reads if kind == 'r' else r.writes
         for i in range(off, off + n):
             s.add(i)
@@ -351,7 +364,11 @@ class Machine(object):
         t = mod.resolve(ty)
         n = mod.sizeof(t)
         if t[0] in ('s', 'a'):
-            self.undecided('aggregate load')
+            # a first-class aggregate (a small struct returned in registers): carried as its bytes
+            bs = self.load_bytes(p, n)
+            if bs is None:
+                self.undecided('aggregate load at an unknown offset')
+            return Agg(bs)
         bs = self.load_bytes(p, n)
         w = type_bits(mod, t)
         if bs is None:
@@ -431,6 +448,10 @@ class Machine(object):
                     r.mem[p.off + i] = (TOP,) * 8
             return
         if t[0] in ('s', 'a'):
+            if isinstance(v, Agg) and len(v.cells) == n:
+                for i in range(n):
+                    r.mem[p.off + i] = v.cells[i]
+                return
             self.undecided('aggregate store')
         w = type_bits(mod, t)
         if isinstance(v, (Ptr, PtrInt)):
@@ -974,7 +995,30 @@ class Machine(object):
         if name.startswith('llvm.memset') or name in ('memset', '__memset_chk'):
             self.memset(args[0], args[1], args[2])
             return args[0]
-        if name.startswith('llvm.lifetime') or name.startswith('llvm.dbg') or \
+        if name.startswith('llvm.lifetime'):
+            # start and end of an object's lifetime: its content is indeterminate from here on (a pointer kept beyond
+            # the end of the scope reads garbage once a compiler reuses the slot)
+            p = args[1] if len(args) > 1 else None
+            if isinstance(p, Ptr) and isinstance(p.region, str) and p.region in self.w.regions and p.off == 0:
+                r = self.w.regions[p.region]
+                n = args[0] if isinstance(args[0], int) else None
+                if r.kind in ('undef', 'sym') and p.region.startswith('%') and (n is None or n < 0 or r.size is None or n >= r.size):
+                    r.mem = {}
+                    r.dead = name.startswith('llvm.lifetime.end')
+                    if r.kind == 'sym' and r.dead:
+                        r.kind = 'undef'
+            return None
+        if name.startswith('__builtin_speculation_safe_value'):
+            # GCC's Spectre barrier: returns its first argument (clang does not know the builtin and emits a call)
+            return args[0]
+        if name.startswith('llvm.is.constant'):
+            # __builtin_constant_p: whether the optimiser will know the value depends on the call site - both answers
+            # are possible for a symbolic operand, so both branches must satisfy the property
+            # One unknown per call *site* (not per execution): the optimiser decides a site once; and also for operands
+            # that are concrete here - a length this harness fixes is a run-time value in the user's program.
+            site = '%s.%s.%s' % (getattr(ins, 'fn', '?'), getattr(ins, 'bb', '?'), getattr(ins, 'idx', '?'))
+            return (('A', 'isconstant@' + site, 0),)
+        if name.startswith('llvm.dbg') or \
                 name.startswith('llvm.assume') or name.startswith('llvm.donothing'):
             return None
         if name.startswith('llvm.bswap'):
@@ -1106,12 +1150,31 @@ def fp_concrete(mod, op, ins, vals, wt):
         return None
 
 
+def initial_global_regions(mod, skip=()):
+    """writable globals with the content of their initialisers: the state of a program that has just started"""
+    m = Machine(mod, {}, [], 0, {})
+    out = {}
+    for name, g in mod.globals.items():
+        key = '@' + name
+        if key in skip or g.const or g.init is None or name.startswith('llvm.'):
+            continue
+        try:
+            mem = {}
+            m.write_const(mem, 0, g.ty, g.init)
+        except Exception:
+            continue
+        r = Region(key, 'global', mod.sizeof(g.ty), mem, writable=True)
+        r.align = getattr(g, 'align', None) or 1
+        out[key] = r
+    return out
+
+
 def sym_arg(name, w):
     return tuple(('A', name, i) for i in range(w))
 
 
 def analyse(mod, fname, make_args, max_worlds=64, max_steps=600000, gcache=None, externals=None, overrides=None,
-            alloca_kind='undef'):
+            alloca_kind='undef', oob_limit=64):
     """Run `fname` in every world.  make_args() -> (args, regions) must build
     fresh argument values and regions for each execution.  Returns the list of
     World objects (status 'ok' or 'undecided')."""
@@ -1131,6 +1194,7 @@ def analyse(mod, fname, make_args, max_worlds=64, max_steps=600000, gcache=None,
         plen = len(prefix)
         args, regions = make_args()
         m = Machine(mod, regions, prefix, max_steps, gcache)
+        m.oob_limit = oob_limit
         m.alloca_kind = alloca_kind     # 'sym': stack objects start with arbitrary (but fixed) content instead of 'uninitialised'
         if externals:
             m.externals = externals
